@@ -144,8 +144,9 @@ Proof. exact update_only_started. Qed.
 Print Assumptions C14_update_only_started.
 
 (* the manager never drives a system into ASystem's "Invalid state" exception: from ANY state the only operation that
-   throws it is the registration of a name that is already registered and not destroyed (lc_obs_double_add) *)
-Theorem C14_no_invalid_state_exception : forall s o,
+   throws it is the registration of a name that is already registered and not destroyed (lc_obs_double_add); the user's own
+   direct pause / resume / stop calls (user_call) are guarded by ASystem itself and throw in the wrong state *)
+Theorem C14_no_invalid_state_exception : forall s o, user_call o = false ->
   sm_step s o = Err (Throw 10) -> exists n u q, o = SAdd n u /\ sys_state s n = Some q /\ q <> Uninit.
 Proof. exact invalid_state_only_on_double_add. Qed.
 Print Assumptions C14_no_invalid_state_exception.
@@ -211,3 +212,23 @@ Proof. vm_compute. repeat split. Qed.
 Example C14_lifecycle_hyps_throw :      (* C14_no_invalid_state_exception *)
   match run_ops [SAdd 1 lc_c0] with Ok s => sm_step s (SAdd 1 lc_c1) = Err (Throw 10) | Err _ => False end.
 Proof. vm_compute. reflexivity. Qed.
+
+(* ---- the user drives a system's lifecycle directly (ASystem::pause / resume / stop); the manager copes ---- *)
+(* a system paused by the user is skipped by updates and, when the world goes away, is stopped before it is destroyed;
+   a resumed one is updated again; the others keep running *)
+Example C14_user_paused_system :
+  match run_ops [SAdd 1 (cfg [] [] 5); SAdd 2 (cfg [] [] 1); SInit; SUpdate; SPause 1; SUpdate; STeardown] with
+  | Ok s => rev (proj 1 (slog s)) = [CbCreate; CbConfigure; CbStart; CbUpdate; CbPause; CbStop; CbDestroy] /\
+            rev (proj 2 (slog s)) = [CbCreate; CbConfigure; CbStart; CbUpdate; CbUpdate; CbPause; CbStop; CbDestroy]
+  | Err _ => False
+  end.
+Proof. vm_compute. split; reflexivity. Qed.
+Example C14_user_resumed_and_stopped :
+  match run_ops [SAdd 1 (cfg [] [] 5); SInit; SPause 1; SResume 1; SUpdate; SPause 1; SStop 1; SUpdate; STeardown] with
+  | Ok s => rev (proj 1 (slog s)) = [CbCreate; CbConfigure; CbStart; CbPause; CbResume; CbUpdate; CbPause; CbStop; CbDestroy]
+  | Err _ => False
+  end.
+Proof. vm_compute. reflexivity. Qed.
+Example C14_user_call_in_wrong_state_throws :
+  match run_ops [SAdd 1 (cfg [] [] 5); SInit] with Ok s => sm_step s (SResume 1) = Err (Throw 10) /\ user_call (SResume 1) = true | Err _ => False end.
+Proof. vm_compute. split; reflexivity. Qed.
